@@ -190,6 +190,7 @@ type Gen struct {
 	BigBatch float64 // probability that an insert is a batch of >= 11 values
 	Nested   bool    // documents: allow nested container values
 	Tagged   bool    // values are unique string tags only (C04)
+	Shallow  bool    // documents: objects hold primitives only (C02's reference can derive every identity)
 	Exotic   float64 // probability that a value is a Go-native exotic value (GoVal)
 	NilField bool    // exotic structs may carry nil slice / map / pointer fields
 }
@@ -227,6 +228,9 @@ func (g *Gen) Val(depth int) interface{} {
 	if !g.Nested || g.Tagged {
 		return g.Prim()
 	}
+	if g.Shallow {
+		return g.shallowVal(depth, false)
+	}
 	switch k := g.R.Intn(7); {
 	case k <= 2 || depth >= 3:
 		return g.Prim()
@@ -242,6 +246,39 @@ func (g *Gen) Val(depth int) interface{} {
 		a := make([]interface{}, 0)
 		for i := 0; i < n; i++ {
 			a = append(a, g.Val(depth+1))
+		}
+		return a
+	}
+}
+
+// shallowVal: primitive | flat object of primitives | array of (primitive | flat object |
+// array of primitives).
+func (g *Gen) shallowVal(depth int, inArray bool) interface{} {
+	flatObj := func() interface{} {
+		m := map[string]interface{}{}
+		n := 1 + g.R.Intn(3)
+		for i := 0; i < n; i++ {
+			m["f"+strconv.Itoa(g.R.Intn(3))] = g.Prim()
+		}
+		return m
+	}
+	switch k := g.R.Intn(8); {
+	case k <= 3:
+		return g.Prim()
+	case k <= 5:
+		return flatObj()
+	default:
+		n := g.R.Intn(4)
+		a := make([]interface{}, 0)
+		for i := 0; i < n; i++ {
+			switch {
+			case inArray || g.R.Intn(3) == 0:
+				a = append(a, g.Prim())
+			case g.R.Intn(2) == 0:
+				a = append(a, flatObj())
+			default:
+				a = append(a, g.shallowVal(depth+1, true))
+			}
 		}
 		return a
 	}
